@@ -379,4 +379,434 @@ theorem pollWrite_started (w : Writer) (me : Nat) {buf : Bytes} (m : MutexSt) (t
   simp [Writer.pollWrite, hb', hl, hw, ho']
   rfl
 
+/-! ## Mutex consistency (ownership) -/
+
+/-- A party's lock future is in state `held` exactly when the mutex names that party as owner. -/
+def Consistent (owner : Nat) (l : LockSt) (m : MutexSt) : Prop := l = .held ↔ m = some owner
+
+/-- No *other* party owned the mutex before or after the step. -/
+def Touched (owner : Nat) (m m' : MutexSt) : Prop :=
+  (m = none ∨ m = some owner) ∧ (m' = none ∨ m' = some owner)
+
+theorem lockPoll_spec (l : LockSt) (m : MutexSt) (me : Nat) (hc : Consistent me l m) :
+    Consistent me (lockPoll l m me).1 (lockPoll l m me).2.1 ∧
+    ((lockPoll l m me).2.2 = true →
+      (lockPoll l m me).1 = .held ∧ (lockPoll l m me).2.1 = some me ∧ (m = none ∨ m = some me)) ∧
+    ((lockPoll l m me).2.2 = false →
+      (lockPoll l m me).1 = .polling ∧ (lockPoll l m me).2.1 = m ∧ l ≠ .held ∧ m ≠ none) := by
+  unfold Consistent at *
+  cases l <;> cases m <;> simp [lockPoll] at hc ⊢ <;> simp_all
+
+/-- What one `poll_write` does to the shared state, for any writer state and any buffer. -/
+def OwnPost (owner : Nat) (m : MutexSt) (t : Transport) (l' : LockSt) (m' : MutexSt) (t' : Transport)
+    (done : Prop) : Prop :=
+  Consistent owner l' m' ∧ (m' = m ∨ Touched owner m m') ∧
+  ∃ delta, t'.wlog = t.wlog ++ delta ∧
+    (delta ≠ [] → (m = none ∨ m = some owner) ∧ (m' = some owner ∨ (m' = none ∧ done)))
+
+theorem OwnPost.unchanged {owner : Nat} {m : MutexSt} {t : Transport} {l : LockSt} {done : Prop}
+    (hc : Consistent owner l m) : OwnPost owner m t l m t done :=
+  ⟨hc, Or.inl rfl, [], by simp, fun h => absurd rfl h⟩
+
+theorem pollWrite_own_started (w : Writer) (me : Nat) (buf : Bytes) (m : MutexSt) (t : Transport)
+    (hb : buf ≠ []) (hl : w.lock ≠ .none) (hc : Consistent (me + 1) w.lock m)
+    {w' : Writer} {m' : MutexSt} {t' : Transport} {res : WRes}
+    (h : w.pollWrite me buf m t = (w', m', t', res)) :
+    OwnPost (me + 1) m t w'.lock m' t' (∃ k, res = .ready k) ∧ w'.rtype = w.rtype ∧ w'.id = w.id := by
+  by_cases hbad : w.isWriting = false ∨ buf.length < w.origLen
+  · obtain ⟨s, hs⟩ := pollWrite_misuse w me m t hb hl hbad
+    rw [hs] at h; cases h
+    exact ⟨OwnPost.unchanged hc, rfl, rfl⟩
+  · have hw : w.isWriting = true := by
+      cases hw : w.isWriting
+      · exact absurd (Or.inl hw) hbad
+      · rfl
+    have ho : w.origLen ≤ buf.length := by
+      have : ¬ buf.length < w.origLen := fun h => hbad (Or.inr h)
+      omega
+    rw [pollWrite_started w me m t hb hl hw ho] at h
+    obtain ⟨hc', hgot, hnot⟩ := lockPoll_spec w.lock m (me + 1) hc
+    split at h
+    · rename_i hg
+      obtain ⟨h1, h2, _, _⟩ := hnot hg
+      cases h
+      refine ⟨⟨hc', Or.inl h2, [], by simp, fun h => absurd rfl h⟩, rfl, rfl⟩
+    · rename_i hg
+      have hg' : (lockPoll w.lock m (me + 1)).2.2 = true := by simpa using hg
+      obtain ⟨h1, h2, h3⟩ := hgot hg'
+      rcases hl' : writeLoop (8 + w.contentLen + w.padLen + 1)
+          { w with lock := (lockPoll w.lock m (me + 1)).1 } w.headBytes (buf.take w.origLen) t
+        with ⟨w3, t3, r⟩
+      rw [hl'] at h
+      obtain ⟨⟨f1, f2, f3, f4⟩, d, hd⟩ := writeLoop_frame _ _ _ _ _ _ _ _ hl'
+      have hcases : (∃ n, r = .ready n) ∨ ∀ n, r ≠ .ready n := by
+        cases r
+        · exact Or.inl ⟨_, rfl⟩
+        all_goals exact Or.inr (fun n hn => by cases hn)
+      rcases hcases with ⟨n, rfl⟩ | hnr
+      · cases h
+        refine ⟨⟨by simp [Consistent], Or.inr ⟨h3, Or.inl rfl⟩, d, hd, fun _ => ⟨h3, Or.inr ⟨rfl, n, rfl⟩⟩⟩, f1, f2⟩
+      · have : (w', m', t', res) = (w3, (lockPoll w.lock m (me + 1)).2.1, t3, r) := by
+          rw [← h]
+          cases r
+          · exact absurd rfl (hnr _)
+          all_goals rfl
+        cases this
+        refine ⟨⟨?_, Or.inr ⟨h3, Or.inr h2⟩, d, hd, fun _ => ⟨h3, Or.inl h2⟩⟩, f1, f2⟩
+        rw [f3]; exact hc'
+
+/-- **Ownership lemma for `poll_write`** (any writer state, any buffer, any transport). -/
+theorem pollWrite_own (w : Writer) (me : Nat) (buf : Bytes) (m : MutexSt) (t : Transport)
+    (hc : Consistent (me + 1) w.lock m)
+    {w' : Writer} {m' : MutexSt} {t' : Transport} {res : WRes}
+    (h : w.pollWrite me buf m t = (w', m', t', res)) :
+    OwnPost (me + 1) m t w'.lock m' t' (∃ k, res = .ready k) ∧ w'.rtype = w.rtype ∧ w'.id = w.id := by
+  by_cases hb : buf = []
+  · subst hb
+    simp [Writer.pollWrite] at h
+    obtain ⟨rfl, rfl, rfl, rfl⟩ := h
+    exact ⟨OwnPost.unchanged hc, rfl, rfl⟩
+  · by_cases hl : w.lock = .none
+    · by_cases hw : w.isWriting = true
+      · rw [pollWrite_broken w me m t hb hl hw] at h; cases h
+        exact ⟨OwnPost.unchanged hc, rfl, rfl⟩
+      · have hw' : w.isWriting = false := by simpa using hw
+        rw [pollWrite_idle w me m t hb hl hw'] at h
+        have hc1 : Consistent (me + 1) (fresh w buf).lock m := by
+          unfold Consistent at *
+          simp [fresh]
+          intro hm
+          have := hc.mpr hm
+          rw [hl] at this; cases this
+        exact pollWrite_own_started (fresh w buf) me buf m t hb (by simp [fresh]) hc1 h
+    · exact pollWrite_own_started w me buf m t hb hl hc h
+
+/-! ## `poll_flush` -/
+
+theorem pollFlush_writing (w : Writer) (me : Nat) (m : MutexSt) (t : Transport) (hw : w.isWriting = true) :
+    w.pollFlush me m t = (w, m, t, .panic "async_io:122 poll_flush called while poll_write is pending") := by
+  simp [Writer.pollFlush, hw]
+
+/-- The mutex is owned by somebody else: the transport is not touched at all. -/
+theorem pollFlush_blocked (w : Writer) (me : Nat) (m : MutexSt) (t : Transport) (hw : w.isWriting = false)
+    (hl : w.lock ≠ .held) (hm : m ≠ none) :
+    w.pollFlush me m t = ({ w with lock := .polling }, m, t, .pending) := by
+  obtain ⟨j, rfl⟩ := Option.ne_none_iff_exists'.mp hm
+  cases hl' : w.lock <;> simp_all [Writer.pollFlush, lockPoll]
+
+/-- The mutex is free or already ours: flush under the lock; release it iff the flush is `Ready`. -/
+theorem pollFlush_locked (w : Writer) (me : Nat) (m : MutexSt) (t : Transport) (hw : w.isWriting = false)
+    (hc : Consistent (me + 1) w.lock m) (hl : w.lock = .held ∨ m = none) :
+    w.pollFlush me m t =
+      match t.flush with
+      | (t', .pending) => ({ w with lock := .held }, some (me + 1), t', .pending)
+      | (t', .ready (.ok ())) => ({ w with lock := .none }, none, t', .ready 0)
+      | (t', .ready (.error e)) => ({ w with lock := .none }, none, t', .err e) := by
+  have hm : (lockPoll (if w.lock == .none then LockSt.polling else w.lock) m (me + 1))
+      = (.held, some (me + 1), true) := by
+    rcases hl with hl | hl
+    · have := hc.mp hl
+      simp [hl, lockPoll, this]
+    · subst hl
+      cases hl' : w.lock <;> simp [lockPoll]
+      have := hc.mp hl'
+      cases this
+  simp only [Writer.pollFlush, hw, hm]
+  rcases t.flush with ⟨t1, r⟩
+  cases r with
+  | pending => simp
+  | ready x => cases x <;> simp
+
+theorem pollFlush_own (w : Writer) (me : Nat) (m : MutexSt) (t : Transport)
+    (hc : Consistent (me + 1) w.lock m)
+    {w' : Writer} {m' : MutexSt} {t' : Transport} {res : WRes}
+    (h : w.pollFlush me m t = (w', m', t', res)) :
+    OwnPost (me + 1) m t w'.lock m' t' True ∧ w'.rtype = w.rtype ∧ w'.id = w.id ∧
+      t'.wlog = t.wlog ∧ w'.isWriting = w.isWriting := by
+  by_cases hw : w.isWriting = true
+  · rw [pollFlush_writing w me m t hw] at h; cases h
+    exact ⟨OwnPost.unchanged hc, rfl, rfl, rfl, rfl⟩
+  · have hw' : w.isWriting = false := by simpa using hw
+    by_cases hl : w.lock = .held ∨ m = none
+    · rw [pollFlush_locked w me m t hw' hc hl] at h
+      have hfl := flush_wlog t
+      have hm0 : m = none ∨ m = some (me + 1) := by
+        rcases hl with hl | hl
+        · exact Or.inr (hc.mp hl)
+        · exact Or.inl hl
+      rcases hf : t.flush with ⟨t1, r⟩
+      rw [hf] at h hfl
+      simp only at hfl
+      cases r with
+      | pending =>
+        cases h
+        exact ⟨⟨by simp [Consistent], Or.inr ⟨hm0, Or.inr rfl⟩, [], by simp [hfl], fun h => absurd rfl h⟩,
+          rfl, rfl, hfl, rfl⟩
+      | ready x =>
+        cases x with
+        | ok u =>
+          cases h
+          exact ⟨⟨by simp [Consistent], Or.inr ⟨hm0, Or.inl rfl⟩, [], by simp [hfl], fun h => absurd rfl h⟩,
+            rfl, rfl, hfl, rfl⟩
+        | error e =>
+          cases h
+          exact ⟨⟨by simp [Consistent], Or.inr ⟨hm0, Or.inl rfl⟩, [], by simp [hfl], fun h => absurd rfl h⟩,
+            rfl, rfl, hfl, rfl⟩
+    · have h1 : w.lock ≠ .held := fun h => hl (Or.inl h)
+      have h2 : m ≠ none := fun h => hl (Or.inr h)
+      rw [pollFlush_blocked w me m t hw' h1 h2] at h; cases h
+      refine ⟨⟨?_, Or.inl rfl, [], by simp, fun h => absurd rfl h⟩, rfl, rfl, rfl, rfl⟩
+      unfold Consistent at *
+      simp
+      intro hm
+      exact h1 (hc.mpr hm)
+
+/-! ## `poll_output` (the request's own management replies) -/
+
+/-- `outLoop` writes a prefix of the parser's output buffer, consumes exactly what was accepted,
+and reports `Ready` only when the buffer is empty. -/
+theorem outLoop_spec (fuel : Nat) : ∀ (sp : Str.Parser) (t : Transport) sp' t' o,
+    outLoop fuel sp t = (sp', t', o) →
+    ∃ delta, t'.wlog = t.wlog ++ delta ∧ sp.output = delta ++ sp'.output ∧
+      sp' = { sp with output := sp'.output } ∧ (o = .ready → sp'.output = []) ∧
+      (sp.output.length < fuel → ∀ s, o ≠ .panic s) := by
+  induction fuel with
+  | zero =>
+    intro sp t sp' t' o h
+    rw [outLoop] at h; cases h
+    exact ⟨[], by simp, by simp, rfl, (fun h => by cases h), (fun h => by omega)⟩
+  | succ fuel ih =>
+    intro sp t sp' t' o h
+    rw [outLoop] at h
+    split at h
+    · rename_i he
+      cases h
+      exact ⟨[], by simp, by simp, rfl, (fun _ => by simpa using he), (fun _ s hs => by cases hs)⟩
+    · rename_i he
+      rcases hv : t.write sp.output with ⟨t1, r⟩
+      rw [hv] at h
+      unfold Transport.write at hv
+      cases r with
+      | pending =>
+        cases h
+        exact ⟨[], by simp [writeV_other hv (Or.inl rfl)], by simp, rfl, (fun h => by cases h),
+          (fun _ s hs => by cases hs)⟩
+      | ready x =>
+        cases x with
+        | error e =>
+          cases h
+          exact ⟨[], by simp [writeV_other hv (Or.inr ⟨e, rfl⟩)], by simp, rfl, (fun h => by cases h),
+            (fun _ s hs => by cases hs)⟩
+        | ok k =>
+          obtain ⟨hk, hlog⟩ := writeV_ok hv
+          simp only [List.flatten_cons, List.flatten_nil, List.append_nil] at hk hlog
+          cases k with
+          | zero =>
+            cases h
+            exact ⟨[], by simpa using hlog, by simp, rfl, (fun h => by cases h), (fun _ s hs => by cases hs)⟩
+          | succ k =>
+            simp only at h
+            obtain ⟨d, hd, ho, hs, hr, hp⟩ := ih _ _ _ _ _ h
+            refine ⟨sp.output.take (k + 1) ++ d, ?_, ?_, ?_, hr, ?_⟩
+            · rw [hd, hlog, List.append_assoc]
+            · simp only [Str.Parser.consumeOutput] at ho
+              rw [List.append_assoc, ← ho, List.take_append_drop]
+            · rw [hs]; rfl
+            · intro hf
+              apply hp
+              simp only [Str.Parser.consumeOutput, List.length_drop]
+              omega
+
+/-- The lock state `get_or_insert_with` leaves behind. -/
+def lock0 (l : LockSt) : LockSt := if l == .none then .polling else l
+
+theorem pollOutput_nonempty (r : AReq) (m : MutexSt) (t : Transport) (hne : r.sp.output ≠ []) :
+    r.pollOutput m t =
+      if (lockPoll (lock0 r.lock) m 0).2.2 = false then
+        ({ r with lock := (lockPoll (lock0 r.lock) m 0).1 }, (lockPoll (lock0 r.lock) m 0).2.1, t, .pending)
+      else
+        match outLoop (r.sp.output.length + 1) r.sp t with
+        | (sp, t', .ready) => ({ r with sp := sp, lock := .none }, Option.none, t', .ready)
+        | (sp, t', o) => ({ r with sp := sp, lock := (lockPoll (lock0 r.lock) m 0).1 },
+            (lockPoll (lock0 r.lock) m 0).2.1, t', o) := by
+  have he : r.sp.output.isEmpty = false := by cases h : r.sp.output <;> simp_all
+  simp [AReq.pollOutput, he, lock0]
+  rfl
+
+theorem pollOutput_own (r : AReq) (m : MutexSt) (t : Transport) (hc : Consistent 0 r.lock m)
+    {r' : AReq} {m' : MutexSt} {t' : Transport} {o : ORes}
+    (h : r.pollOutput m t = (r', m', t', o)) :
+    OwnPost 0 m t r'.lock m' t' (o = .ready) ∧
+      ∃ delta, t'.wlog = t.wlog ++ delta ∧ r.sp.output = delta ++ r'.sp.output ∧
+        (o = .ready → r'.sp.output = [] ∧ r'.lock = .none) ∧
+        ((o = .pending ∨ ∃ e, o = .err e) → r.sp.output ≠ []) := by
+  by_cases hne : r.sp.output = []
+  · have he : r.sp.output.isEmpty = true := by simp [hne]
+    unfold AReq.pollOutput at h
+    simp only [he, if_true] at h
+    split at h <;> cases h
+    · exact ⟨OwnPost.unchanged hc, [], by simp, by simp, (fun h => by cases h),
+        (fun h => by rcases h with h | ⟨e, h⟩ <;> cases h)⟩
+    · rename_i hl
+      exact ⟨OwnPost.unchanged hc, [], by simp, by simp, (fun _ => ⟨hne, by simpa using hl⟩),
+        (fun h => by rcases h with h | ⟨e, h⟩ <;> cases h)⟩
+  · rw [pollOutput_nonempty r m t hne] at h
+    have hc0 : Consistent 0 (lock0 r.lock) m := by
+      unfold Consistent lock0 at *
+      cases hl : r.lock <;> simp_all
+    obtain ⟨hc', hgot, hnot⟩ := lockPoll_spec _ m 0 hc0
+    generalize lock0 r.lock = l0 at *
+    split at h
+    · rename_i hg
+      obtain ⟨h1, h2, _, _⟩ := hnot hg
+      cases h
+      exact ⟨⟨hc', Or.inl h2, [], by simp, fun h => absurd rfl h⟩, [], by simp, by simp,
+        (fun h => by cases h), (fun _ => hne)⟩
+    · rename_i hg
+      have hg' : (lockPoll l0 m 0).2.2 = true := by simpa using hg
+      obtain ⟨h1, h2, h3⟩ := hgot hg'
+      rcases hl' : outLoop (r.sp.output.length + 1) r.sp t with ⟨sp3, t3, o3⟩
+      rw [hl'] at h
+      obtain ⟨d, hd, hout, _, hrdy, _⟩ := outLoop_spec _ _ _ _ _ _ hl'
+      have hcases : o3 = .ready ∨ o3 ≠ .ready := by
+        cases o3
+        · exact Or.inl rfl
+        all_goals exact Or.inr (fun hn => by cases hn)
+      rcases hcases with rfl | hnr
+      · cases h
+        exact ⟨⟨by simp [Consistent], Or.inr ⟨h3, Or.inl rfl⟩, d, hd, fun _ => ⟨h3, Or.inr ⟨rfl, rfl⟩⟩⟩,
+          d, hd, hout, (fun _ => ⟨hrdy rfl, rfl⟩), (fun _ => hne)⟩
+      · have : (r', m', t', o) = ({ r with sp := sp3, lock := (lockPoll l0 m 0).1 },
+            (lockPoll l0 m 0).2.1, t3, o3) := by
+          rw [← h]
+          cases o3
+          · exact absurd rfl hnr
+          all_goals rfl
+        cases this
+        exact ⟨⟨hc', Or.inr ⟨h3, Or.inr h2⟩, d, hd, fun _ => ⟨h3, Or.inl h2⟩⟩,
+          d, hd, hout, (fun h => absurd h hnr), (fun _ => hne)⟩
+
+/-! ## The writer invariant and the functional specification of one `poll_write` -/
+
+/-- Invariant of writer `w` while a write of `buf` is in progress and `sent` has reached the
+transport: the lock is held (or still being acquired, and then nothing was sent), `orig_len` is the
+capped buffer length, and the loop invariant holds for the truncated buffer. -/
+structure WInv (w : Writer) (buf sent : Bytes) : Prop where
+  lock : w.lock = .held ∨ (w.lock = .polling ∧ sent = [])
+  orig : w.origLen = min buf.length 65535
+  writing : w.isWriting = true
+  loop : LoopInv w (buf.take (min buf.length 65535)) sent
+
+theorem LoopInv.withLock {w : Writer} {p sent : Bytes} (h : LoopInv w p sent) (l : LockSt) :
+    LoopInv { w with lock := l } p sent :=
+  ⟨h.pos, h.hidx, h.clen, h.plen, h.early, h.split⟩
+
+theorem fresh_WInv (w : Writer) {buf : Bytes} (hb : buf ≠ []) : WInv (fresh w buf) buf [] := by
+  have hpos : 0 < buf.length := List.length_pos_iff.mpr hb
+  have hlen : (buf.take (min buf.length 65535)).length = min buf.length 65535 := by
+    rw [List.length_take]; omega
+  refine ⟨Or.inr ⟨rfl, rfl⟩, rfl, fresh_isWriting w hb, ?_⟩
+  refine ⟨by omega, by simp [fresh], ?_, ?_, ?_, ?_⟩
+  · show min buf.length 65535 ≤ _; omega
+  · show RecordHeader.autoPadding (min buf.length 65535) ≤ _; rw [hlen]; exact Nat.le_refl _
+  · intro _; rw [hlen]; exact ⟨rfl, rfl⟩
+  · show recordOf w.rtype w.id _ = [] ++ remaining (fresh w buf) _
+    simp only [remaining, recordOf, origHead, List.nil_append]
+    show _ = List.drop 0 _ ++ List.drop (_ - min buf.length 65535) _ ++ zeros (RecordHeader.autoPadding (min buf.length 65535))
+    rw [hlen, Nat.sub_self]
+    rfl
+
+/-- What one `poll_write` of a write in progress does. -/
+def WritePost (me : Nat) (w : Writer) (buf sent : Bytes) (t : Transport)
+    (w' : Writer) (m' : MutexSt) (t' : Transport) (res : WRes) : Prop :=
+  w'.rtype = w.rtype ∧ w'.id = w.id ∧
+  ∃ delta, t'.wlog = t.wlog ++ delta ∧
+    (∀ k, res = .ready k →
+      k = min buf.length 65535 ∧ sent ++ delta = recordOf w.rtype w.id (buf.take k) ∧
+      m' = none ∧ w'.lock = .none ∧ w'.isWriting = false) ∧
+    ((res = .pending ∨ ∃ e, res = .err e) →
+      WInv w' buf (sent ++ delta) ∧ Consistent (me + 1) w'.lock m') ∧
+    (∀ e, res = .err e → m' = some (me + 1) ∧ w'.lock = .held) ∧
+    (∀ s, res ≠ .panic s)
+
+theorem pollWrite_spec (w : Writer) (me : Nat) (buf : Bytes) (m : MutexSt) (t : Transport) (sent : Bytes)
+    (hb : buf ≠ []) (hinv : WInv w buf sent) (hc : Consistent (me + 1) w.lock m)
+    {w' : Writer} {m' : MutexSt} {t' : Transport} {res : WRes}
+    (h : w.pollWrite me buf m t = (w', m', t', res)) :
+    WritePost me w buf sent t w' m' t' res := by
+  have hl : w.lock ≠ .none := by
+    rcases hinv.lock with h | ⟨h, _⟩ <;> rw [h] <;> simp
+  have ho : w.origLen ≤ buf.length := by rw [hinv.orig]; omega
+  have hplen : (buf.take (min buf.length 65535)).length = min buf.length 65535 := by
+    rw [List.length_take]; omega
+  rw [pollWrite_started w me m t hb hl hinv.writing ho] at h
+  obtain ⟨hc', hgot, hnot⟩ := lockPoll_spec w.lock m (me + 1) hc
+  split at h
+  · rename_i hg
+    obtain ⟨h1, h2, h3, _⟩ := hnot hg
+    cases h
+    have hs : sent = [] := by
+      rcases hinv.lock with h | ⟨_, h⟩
+      · exact absurd h h3
+      · exact h
+    refine ⟨rfl, rfl, [], by simp, (fun k hk => by cases hk), (fun _ => ⟨⟨?_, hinv.orig, hinv.writing, ?_⟩, hc'⟩),
+      (fun e he => by cases he), (fun s hs => by cases hs)⟩
+    · exact Or.inr ⟨h1, by simp [hs]⟩
+    · simpa using hinv.loop.withLock _
+  · rename_i hg
+    have hg' : (lockPoll w.lock m (me + 1)).2.2 = true := by simpa using hg
+    obtain ⟨h1, h2, h3⟩ := hgot hg'
+    rcases hl' : writeLoop (8 + w.contentLen + w.padLen + 1)
+        { w with lock := (lockPoll w.lock m (me + 1)).1 } w.headBytes (buf.take w.origLen) t
+      with ⟨w3, t3, r⟩
+    rw [hl'] at h
+    have hp : buf.take w.origLen = buf.take (min buf.length 65535) := by rw [hinv.orig]
+    rw [hp] at hl'
+    have hinv2 : LoopInv { w with lock := (lockPoll w.lock m (me + 1)).1 }
+        (buf.take (min buf.length 65535)) sent := hinv.loop.withLock _
+    obtain ⟨d, hd, hi3, ⟨f1, f2, f3, f4⟩, hrdy, hpend, hpanic⟩ :=
+      writeLoop_spec _ _ _ _ t _ hinv2 (head_harmless hinv2)
+        (by show 8 - w.headIdx + w.contentLen + w.padLen < 8 + w.contentLen + w.padLen + 1; omega)
+        _ _ _ hl'
+    have hcases : (∃ n, r = .ready n) ∨ ∀ n, r ≠ .ready n := by
+      cases r
+      · exact Or.inl ⟨_, rfl⟩
+      all_goals exact Or.inr (fun n hn => by cases hn)
+    rcases hcases with ⟨n, rfl⟩ | hnr
+    · cases h
+      obtain ⟨hn, hw3⟩ := hrdy n rfl
+      rw [hplen] at hn
+      refine ⟨f1, f2, d, hd, ?_, (fun h => by rcases h with h | ⟨e, h⟩ <;> cases h),
+        (fun e he => by cases he), (fun s hs => by cases hs)⟩
+      intro k hk
+      cases hk
+      refine ⟨hn, ?_, rfl, rfl, hw3⟩
+      have := hi3.split
+      rw [remaining_nil hi3 hw3, List.append_nil, f1, f2] at this
+      rw [hn]; exact this.symm
+    · have : (w', m', t', res) = (w3, (lockPoll w.lock m (me + 1)).2.1, t3, r) := by
+        rw [← h]
+        cases r
+        · exact absurd rfl (hnr _)
+        all_goals rfl
+      cases this
+      have hheld : w'.lock = .held := by rw [f3]; exact h1
+      refine ⟨f1, f2, d, hd, (fun k hk => absurd hk (hnr k)), ?_, (fun e _ => ⟨h2, hheld⟩), hpanic⟩
+      intro hp
+      refine ⟨⟨Or.inl hheld, by rw [f4]; exact hinv.orig, hpend hp, hi3⟩, ?_⟩
+      unfold Consistent
+      rw [hheld, h2]
+      simp
+
+/-- Same, for the poll that starts the write (idle writer). -/
+theorem pollWrite_spec_idle (w : Writer) (me : Nat) (buf : Bytes) (m : MutexSt) (t : Transport)
+    (hb : buf ≠ []) (hl : w.lock = .none) (hw : w.isWriting = false) (hm : m ≠ some (me + 1))
+    {w' : Writer} {m' : MutexSt} {t' : Transport} {res : WRes}
+    (h : w.pollWrite me buf m t = (w', m', t', res)) :
+    WritePost me w buf [] t w' m' t' res := by
+  rw [pollWrite_idle w me m t hb hl hw] at h
+  have hc : Consistent (me + 1) (fresh w buf).lock m := by
+    unfold Consistent; simp [fresh]; exact hm
+  exact pollWrite_spec (fresh w buf) me buf m t [] hb (fresh_WInv w hb) hc h
+
 end Fcgi.Async
